@@ -132,3 +132,56 @@ func acceptPair(local, remote net.IP) (net.Conn, func(), error) {
 	}
 	return sv, func() { sv.Close(); cl.Close(); l.Close() }, nil
 }
+
+// ---- IPv6 link-local addresses on the namespace's loopback device (their textual form
+// carries a zone, "fe80::7%lo", which a classifier has to strip before parsing) ----
+
+type in6Ifreq struct {
+	addr      [16]byte
+	prefixlen uint32
+	ifindex   int32
+}
+
+type ifreqIndex struct {
+	name  [16]byte
+	index int32
+	_     [20]byte
+}
+
+func nsAddV6(last byte) error {
+	fd, err := syscall.Socket(syscall.AF_INET6, syscall.SOCK_DGRAM, 0)
+	if err != nil {
+		return err
+	}
+	defer syscall.Close(fd)
+	var ix ifreqIndex
+	copy(ix.name[:], "lo")
+	if err := ioctl(fd, syscall.SIOCGIFINDEX, unsafe.Pointer(&ix)); err != nil {
+		return fmt.Errorf("SIOCGIFINDEX: %v", err)
+	}
+	r := in6Ifreq{prefixlen: 128, ifindex: ix.index}
+	r.addr[0], r.addr[1], r.addr[15] = 0xfe, 0x80, last
+	if err := ioctl(fd, syscall.SIOCSIFADDR, unsafe.Pointer(&r)); err != nil {
+		return fmt.Errorf("SIOCSIFADDR(v6): %v", err)
+	}
+	return nil
+}
+
+var (
+	v6Once sync.Once
+	v6Err  error
+)
+
+// nsLinkLocal makes fe80::7 and fe80::9 available on the namespace's lo (once).
+func nsLinkLocal() error {
+	v6Once.Do(func() {
+		if err := inNamespace(func() {
+			if v6Err = nsAddV6(7); v6Err == nil {
+				v6Err = nsAddV6(9)
+			}
+		}); err != nil {
+			v6Err = err
+		}
+	})
+	return v6Err
+}
